@@ -341,6 +341,7 @@ func buildMxPlanFocus(r *rand.Rand, n, hostileSig, hostileFee int, focus string,
 	p := &txPlan{B: chain.NewBuilder(w.g)}
 	p.B.FeatureAt = featureAt
 	p.B.Bootstrap()
+	lastSig := map[int][]byte{} // signer key -> signature bytes of its latest validly signed transaction
 	for len(p.Cases) < n {
 		p.B.Begin(int64(30 + r.Intn(90)))
 		for j, m := 0, 1+r.Intn(4); j < m && len(p.Cases) < n; j++ {
@@ -350,11 +351,21 @@ func buildMxPlanFocus(r *rand.Rand, n, hostileSig, hostileFee int, focus string,
 			if cs.signer == mxStranger2 {
 				other = mxStranger
 			}
-			p.add(cs.kind, cs.msg, cs.signer, func(o *chain.TxOpts) {
-				labels["sig"] = sigVariant(r, o, other, r.Intn(100) < hostileSig)
+			c := p.add(cs.kind, cs.msg, cs.signer, func(o *chain.TxOpts) {
+				hostile := r.Intn(100) < hostileSig
+				if sig, ok := lastSig[cs.signer]; ok && hostile && r.Intn(5) == 0 {
+					// a valid signature of this very key, copied from an earlier (delivered) transaction of its owner
+					o.RawSig = sig
+					labels["sig"] = "copied-from-earlier-valid-tx"
+				} else {
+					labels["sig"] = sigVariant(r, o, other, hostile)
+				}
 				labels["fee_class"] = feeVariant(r, o, r.Intn(100) < hostileFee)
 				labels["required_fee"] = fmt.Sprint(cs.msg.GetFee().Int64())
 			}, labels)
+			if labels["sig"] == "valid" {
+				lastSig[cs.signer] = chain.SigFor(cs.msg, chain.Key(cs.signer), c.Opts)
+			}
 		}
 		p.B.End()
 	}
